@@ -121,12 +121,77 @@ def _rt_task(task):
     return n, keys, sample, notes, bads
 
 
+ENC_ASSUMPTIONS = [
+    "strings are values of an uninterpreted sort; grammar tables are arbitrary finite sets of strings; Token(s, grammar=self.grammar, "
+    "decoder=self.decoder).is_unquoted_string(), decoder.is_identifier(s), str.isprintable are uninterpreted predicates of the text "
+    "(their definitions: T_dec / bounded drivers); a Token built with any other grammar/decoder arguments is a different predicate",
+    "isinstance tests on a value of unknown type are uninterpreted type predicates; the only relation assumed is bool => numeric",
+    "encode_set / encode_sequence / encode_datetype: signature contracts only (return a str or raise ValueError/TypeError); "
+    "encode_time / encode_date / encode_units / format (text building with f-strings and textwrap): bounded drivers only",
+    "search loops: the body is verified for an arbitrary member; `exit fact == forall-closure of the fall-through fact` is itself "
+    "an obligation discharged with the definitional axioms of the table-search predicates",
+]
+
+
+def encoder_sections(ctx, pid):
+    """deductive: quoting decision / string rendering / value dispatch of the four encoders (T_enc);
+    bounded: the same contract objects evaluated at run time on the real methods"""
+    from ..pyvc.enctheory import EncTheory
+    from ..pyvc import encnative
+    from ..contracts import encoder as ce
+    s = Section("encoder-quoting-contracts", "smt",
+                rule="needs_quotes, encode_string, is_symbol (PVL/ODL/PDS3/ISIS receivers) == the quoting rule of the statement; "
+                     "encode_simple_value dispatches by type in the order None, set, list, date/time, bool, number, str")
+    t0 = time.time()
+    contracts = ce.quoting_contracts()
+    verify_contracts(s, contracts, EncTheory, ["pvl.encoder"], jobs=ctx.jobs)
+    s.assumptions += ENC_ASSUMPTIONS
+    s.seconds = time.time() - t0
+    r = Section("encoder-quoting-runtime-contracts", "bounded", bounded=True,
+                rule="the real method is called on a catalogue of strings / values and the contract's when/post formulas are evaluated "
+                     "with every uninterpreted symbol interpreted by the real Python operation",
+                bounds={"strings": len(encnative.STRINGS), "values": len(encnative.VALUES), "encoders": 7})
+    t1 = time.time()
+    import pvl.encoder as M
+    failed = {}
+    for o in s.obls:
+        if o.status == "failed":
+            failed.setdefault(o.function, o.name)
+    for label, enc in encnative.encoders():
+        mro = [c.__name__ for c in type(enc).__mro__]
+        for c in contracts:
+            if c.assumed or c.fn is None:
+                continue
+            static_cls, mname = c.target.split(".")[-2:]
+            if static_cls not in mro:
+                continue
+            pname = [a.arg for a in c.fn.args.args if a.arg != "self"][0]
+            pool = encnative.STRINGS if c.params.get(pname) == "str" else encnative.STRINGS + encnative.VALUES
+            for v in pool:
+                try:
+                    bad = encnative.check_method(c, enc, label, static_cls, mname, v)
+                except KeyError as e:
+                    r.notes.append(f"run-time evaluation skipped {static_cls}.{mname}: {e!r}") if len(r.notes) < 5 else None
+                    continue
+                r.case(distinct_key=(label, static_cls, mname, repr(v)[:60]),
+                       sample={"encoder": label, "method": f"{static_cls}.{mname}", "value": repr(v)[:60]})
+                if bad:
+                    what, data = bad
+                    r.violation(f"{pid}:encoder:{static_cls}.{mname}:{label}:{data.get('clause', data.get('raised', 'exit'))}",
+                                what, {"encoder": label, "function": f"pvl.encoder.{static_cls}.{mname}", "value": repr(v), **data},
+                                obligation=failed.get(c.target, ""), concrete=True)
+    r.seconds = time.time() - t1
+    return [s, r]
+
+
 def sections_for(pid, ctx):
     out = []
     if pid in ("C17", "C03", "C14"):
         out.append(decoder_section(ctx))
     if pid in ("C03", "C04"):
         out += lexer_sections(ctx, pid)
+    if pid in ("C01", "C02", "C07", "C12", "C17"):
+        out += encoder_sections(ctx, pid)
     if pid in ("C17", "C03", "C14"):
         from . import regexsec
         out += regexsec.sections_for(pid, ctx)
@@ -146,6 +211,23 @@ def replay_lexer(pid, data):
             if o.status == "failed" and (not fn or fn in o.name):
                 return f"obligation {o.name} failed: {o.detail[:300]}"
     return None
+
+
+def replay_encoder(pid, data):
+    from ..harness import Ctx
+    fn = str(data.get("function", ""))
+    for sec in encoder_sections(Ctx(pid, "quick", 0), pid):
+        for v in sec.violations:
+            if not fn or fn == str(v.data.get("function", "")):
+                return v.what
+        for o in sec.obls:
+            if o.status == "failed" and (not fn or fn in o.name):
+                return f"obligation {o.name} failed: {o.detail[:300]}"
+    return None
+
+
+def is_encoder_record(data):
+    return str(data.get("function", "")).startswith("pvl.encoder.") and ("clause" in data or "raised" in data or "verifier_output" in data)
 
 
 def is_lexer_record(data):
